@@ -1372,3 +1372,6 @@ package kcache
 
 /*@ nonblocking-send kcache._subscription.outch kcache.filterSubscription.outch kcache._watchSession.outch (*kcache._watcher).run:outch
 @*/
+
+/*@ iface kcache.CacheReader.Get
+@*/
